@@ -375,6 +375,22 @@ func (e *env) initialDown(cf conf, j int, offline string) {
 	e.res.Case(fmt.Sprint("initial-down", cf, j, offline), true)
 }
 
+// the user disconnects and connects again while the reconnection loop sleeps in its back-off (server
+// unreachable): the old cycle must end there, the new one counts from 1 and gives up once
+func (e *env) restartInBackoff(cf conf) {
+	w, _ := e.begin(cf, "restart-in-backoff")
+	if w == nil {
+		return
+	}
+	w.down("refuse")
+	w.connect()
+	time.Sleep(cf.Min * 2 / 5) // the refused dial is over, the loop sleeps Min (no jitter) before its first attempt
+	vtrace.Emit("note", "what", "user disconnect + connect inside the back-off sleep")
+	w.s.Disconnect()
+	w.connect()
+	e.endGaveUp(w, false, "")
+}
+
 // flapping: the link goes away again right after each reconnection
 func (e *env) flap(cf conf, cycles int, rng *rand.Rand) {
 	w, id := e.begin(cf, fmt.Sprintf("flap cycles=%d", cycles))
@@ -599,7 +615,7 @@ func (e *env) hole(cf conf, expect string) {
 func TestC15(t *testing.T) {
 	out := vres.OutDir()
 	res := vres.New()
-	res.Rule = "one case = one scenario on a fresh server + proxy + client: outage pattern (down for j attempts then healed / held down until the client gives up / unreachable at first / flapping / black-holed) x attempt limit 0..5 x transport x jitter x mixes of plain, volatile, ack-carrying and binary emits before, during and after; plus the deterministic schedules (emit while pending with and without something parked, close while Dial returns, buffered greeting, emit between state write and flush) and emit storms (one goroutine emitting without pause through connect and reconnect, every log call of the library and every hook point a scheduling point); all non-trivial"
+	res.Rule = "one case = one scenario on a fresh server + proxy + client: outage pattern (down for j attempts then healed / held down until the client gives up / unreachable at first / flapping / black-holed) x attempt limit 0..5 x transport x jitter x mixes of plain, volatile, ack-carrying and binary emits before, during and after; plus the deterministic schedules (emit while pending with and without something parked, close while Dial returns, buffered greeting, emit between state write and flush, user disconnect + connect inside a back-off sleep) and emit storms (one goroutine emitting without pause through connect and reconnect, every log call of the library and every hook point a scheduling point); all non-trivial"
 	vtrace.Install()
 	defer vtrace.Uninstall()
 	vtrace.SetFilter(keep)
@@ -686,6 +702,11 @@ func TestC15(t *testing.T) {
 			e.emitStorm(base("emit-storm", tr, 0, 0))
 		}
 		e.flushWindow(base("flush-window", tr, 0, 0))
+	}
+	for _, tr := range [][]string{ws, po} {
+		cf := base("restart-in-backoff", tr, 2, 0)
+		cf.Min, cf.Max = 180*ms, 180*ms
+		e.restartInBackoff(cf)
 	}
 	e.hole(base("hole-default", ws, 0, 0), "hung")
 	e.hole(base("hole-default", po, 0, 0), "hung")
